@@ -117,6 +117,11 @@ class VC:
             st.env[nm] = z3.FreshInt(nm)
 
     # ---- evaluation
+    def _slice_no(self, e):
+        """ordinal of a slice expression in order of first evaluation (names must not depend on local variable names)"""
+        ids = self.__dict__.setdefault("_slice_ids", {})
+        return ids.setdefault((e.lineno, e.col_offset), len(ids) + 1)
+
     def ev(self, e, st):
         if isinstance(e, ast.Name):
             if e.id not in st.env:
@@ -177,12 +182,12 @@ class VC:
                 if isinstance(base, Slice):
                     L = base.hi - base.lo
                     hi = self.ev(e.slice.upper, st) if e.slice.upper is not None else L
-                    self.prove(f"slice lower bound >= 0 in {ast.unparse(e)}", st.assm, lo >= 0)
+                    self.prove(f"slice {self._slice_no(e)} lower bound >= 0", st.assm, lo >= 0)
                     return Slice(base.base, base.lo + zmin(lo, L), base.lo + zmin(hi, L), base.length)
                 # slicing an opaque array X[j:j+b]: positions of range(len)
                 L = self.length_of(base, st)
                 hi = self.ev(e.slice.upper, st) if e.slice.upper is not None else L
-                self.prove(f"slice lower bound >= 0 in {ast.unparse(e)}", st.assm, lo >= 0)
+                self.prove(f"slice {self._slice_no(e)} lower bound >= 0", st.assm, lo >= 0)
                 return Opaque("gather", base, Slice("range", zmin(lo, L), zmin(hi, L), L))
             if isinstance(e.slice, ast.Tuple):
                 elts = e.slice.elts
